@@ -97,10 +97,10 @@ def c42_runs(tier):
         runs.append(McRun(B, 'nolock', dict(cs=cs, ss=ss, depth=5 if q else 6), bound=0, budget=60))
     tp = 'a|ad|ada' if q else allp
     runs.append(McRun(B, 'pool', dict(cs=8, ss=16, t0=tp, t1=tp), bound=2, mode='tsan', budget=90 if q else 300))
-    runs.append(McRun(B, 'pool', dict(cs=16, ss=64, t0='aaD', t1='ada', t2='ad'), bound=1, mode='tsan', budget=60))
-    runs.append(McRun(B, 'pool', dict(cs=8, ss=16, t0='aaD', t1='ada', t2='ad'), bound=1, mode='asan', budget=60))
-    runs.append(McRun(B, 'nolock', dict(cs=8, ss=16, depth=4), bound=0, mode='asan', budget=120))
-    runs.append(McRun(B, 'nolock', dict(cs=16, ss=64, depth=4), bound=0, mode='asan', budget=120))
+    runs.append(McRun(B, 'pool', dict(cs=16, ss=64, t0='aaD', t1='ada', t2='ad'), bound=1, mode='tsan', budget=60 if q else 300))
+    runs.append(McRun(B, 'pool', dict(cs=8, ss=16, t0='aaD', t1='ada', t2='ad'), bound=1, mode='asan', budget=60 if q else 300))
+    runs.append(McRun(B, 'nolock', dict(cs=8, ss=16, depth=4), bound=0, mode='asan', budget=120 if q else 400))
+    runs.append(McRun(B, 'nolock', dict(cs=16, ss=64, depth=4), bound=0, mode='asan', budget=120 if q else 400))
     runs.sort(key=lambda r: r.mode == 'plain')
     return runs
 
